@@ -4,7 +4,7 @@
 From Coq Require Import NArith ZArith List String Bool Permutation.
 From V Require Import Base.UString Base.Json Model.SchemaTypes Model.PyBase Model.Schema Model.Serialize.
 From V Require Import Spec.JsonValue Proofs.C01Basics Proofs.C01Serialize.
-From V Require Import Proofs.C01Kinds Proofs.C01KindsAll Proofs.C01Object Proofs.C01Roundtrip Proofs.C01Parse Proofs.C01LibInstance Gen.Tables.
+From V Require Import Proofs.C01Kinds Proofs.C01KindsAll Proofs.C01Object Proofs.C01Roundtrip Proofs.C01Parse Proofs.C01Bundle Proofs.C01LibInstance Gen.Tables.
 Import ListNotations.
 
 (* All serialization options denote the same JSON value: whatever the option set, the value written
@@ -125,17 +125,47 @@ Theorem roundtrip_equal_parse_partial :
 Proof. exact C01Parse.parse_roundtrip. Qed.
 Print Assumptions roundtrip_equal_parse_partial.
 
+(* roundtrip_equal for Bundle, constructor level, partial: the members of a Bundle are not constructed by a class
+   named in the tables but parsed, each from its own dictionary (STIXObjectProperty.clean -> stix2.parse).  For a
+   Bundle class that passes bundle_ok (table conditions; for 2.0 the repaired member re-check vr_bundle20_recheck),
+   plain input, and members that (bundle_members_ok) are dictionaries without reserved argument names, given with
+   their id when their type is a 2.1 observable type, and stored as objects of parse-covered classes `pids`:
+   constructing from the bundle's own encoding returns the same bundle -- same members in the same order, each the
+   same object.  Members' round trip is roundtrip_equal_parse_partial, one fuel level down. *)
+Theorem roundtrip_equal_bundle_partial :
+  forall vr ev w pattern_ok selectors_ok, vr_year_pad vr = true ->
+  forall ids, closed_ok vr w ids = true -> registry_ok w = true ->
+  forall pids, forallb (fun k => mem_ustr k ids) pids = true ->
+    forallb (fun k => match find_class (wclasses w) k with Some c => parse_class_ok w c | None => false end) pids = true ->
+  forall fuel kid allow interop kw vrefs o c,
+    find_class (wclasses w) kid = Some c -> bundle_ok vr w ids c = true ->
+    plain_dict kw = true ->
+    run vr ev w pattern_ok selectors_ok fuel (RConstruct kid allow interop kw vrefs) = Ok o ->
+    bundle_members_ok w pids kw o = true ->
+    run vr ev w pattern_ok selectors_ok fuel (RConstruct kid allow interop (omem o) vrefs) = Ok o.
+Proof. exact C01Bundle.bundle_roundtrip. Qed.
+Print Assumptions roundtrip_equal_bundle_partial.
+
 (* the generated tables of /repo: which classes the constructor-level theorems above cover (recomputed by
-   the kernel on every run; 118 of 123 at the current tables -- not: Bundle, ObservedData (member parsing),
+   the kernel on every run; 118 of 123 at the current tables, plus the two Bundle classes (lib_bundle_ids) by
+   roundtrip_equal_bundle_partial -- not: ObservedData (observable containers, 2.0 and the deprecated 2.1 form),
    2.1 Indicator (pattern_version rewrite)); lib_proved_ids (116: without the two MarkingDefinition classes)
    is the set of the parse-level theorem and of the C04 theorems *)
 Theorem lib_classes_covered :
   closed_okw variant_repaired lib lib_proved_idsw = true /\ closed_ok variant_repaired lib lib_proved_ids = true /\
-  forallb (fun k => mem_ustr k lib_proved_idsw) lib_proved_ids = true.
-Proof. exact (conj C01LibInstance.lib_proved_closedw (conj C01LibInstance.lib_proved_closed C01LibInstance.lib_proved_sub)). Qed.
+  forallb (fun k => mem_ustr k lib_proved_idsw) lib_proved_ids = true /\
+  forallb (fun k => match find_class (wclasses lib) k with
+                    | Some c => bundle_ok variant_repaired lib lib_proved_ids c
+                    | None => false
+                    end) lib_bundle_ids = true.
+Proof.
+  exact (conj C01LibInstance.lib_proved_closedw (conj C01LibInstance.lib_proved_closed
+          (conj C01LibInstance.lib_proved_sub C01LibInstance.lib_bundle_okb))).
+Qed.
 Print Assumptions lib_classes_covered.
 
-Example lib_coverage_count : fst lib_coverage = List.length lib_proved_idsw /\ snd lib_coverage = List.length (wclasses lib).
+Example lib_coverage_count :
+  fst lib_coverage = (List.length lib_proved_idsw + List.length lib_bundle_ids)%nat /\ snd lib_coverage = List.length (wclasses lib).
 Proof. split; vm_compute; reflexivity. Qed.
 
 (* ... and which of them are parse entry points covered by roundtrip_equal_parse_partial (81 at the pinned tables) *)
